@@ -77,6 +77,8 @@ package nsqlookupd
 //@ func New(opts *Options) (*NSQLookupd, error)
 //@   props C15 C14
 //@   requires opts != nil
+//   (round 7) both listeners exist in every daemon New returns (Main/[built-by-New])
+//@   ensures[listeners-open] result1 == nil ==> result0.tcpListener != nil && result0.httpListener != nil
 //@   ensures[error-means-no-daemon] result1 != nil ==> result0 == nil
 //@   ensures[daemon-is-wired] result1 == nil ==> result0 != nil && fresh(result0) && result0.opts == opts && result0.DB != nil && fresh(result0.DB) &&
 //@        result0.tcpServer != nil && fresh(result0.tcpServer) && result0.tcpServer.nsqlookupd == result0
@@ -195,6 +197,8 @@ package nsqlookupd
 //@ func (l *NSQLookupd) Main() error
 //@   props C15 C14
 //@   requires l != nil
+//   (round 7) Main runs on a daemon built by New: what its server goroutines need (Main$2 / Main$3) is checked where they are started
+//@   requires[built-by-New] l.tcpListener != nil && l.tcpServer != nil && l.httpListener != nil
 //@   ensures[both-servers-started] r5GWraps == old(r5GWraps) + 2 && r5GWrapOn == &l.waitGroup && r5GPrevWrapOn == &l.waitGroup
 //@   ensures[http-routes-registered] r5GRouteCalls == old(r5GRouteCalls) + 21 && r5GRoute("GET", "/lookup") && r5GRoute("GET", "/nodes") && r5GRoute("POST", "/topic/tombstone")
 //@   ensures[registry-untouched] mAddCalls == old(mAddCalls) && mRemCalls == old(mRemCalls) && mTombCalls == old(mTombCalls)
